@@ -59,6 +59,9 @@ static int fmt_read_header(struct archive_read *a, struct archive_entry *e)
 			o_int(0);
 			if (p != NULL && av > 0) { o_bytes(p, (size_t)av); __archive_read_consume(a, av); }
 			else o_bytes("", 0);
+		} else if (kind == 1) {
+			int64_t r = __archive_read_consume(a, v_ll(v_at(op, 1)));
+			o_int(1); o_int(r);
 		} else {
 			int wh = (int)v_ll(v_at(op, 2));
 			int64_t r = __archive_read_seek(a, v_ll(v_at(op, 1)),
